@@ -94,8 +94,8 @@ def _generate(rng, index, tier, extra):  # pylint: disable=unused-argument
         wrapper, path = rng.choice(wrap_table())
         raw = rng.choice(corpus.accepted_plus(path))
         faults = wirefault.gen_faults(rng, raw) if rng.random() < 0.85 else []
-        if wirefault.is_text(raw) and rng.random() < 0.4:
-            faults = (wirefault.typed_faults(rng, raw) if rng.random() < 0.4 else wirefault.token_faults(rng, raw))
+        if wirefault.is_text(raw) and rng.random() < 0.7:
+            faults = (wirefault.typed_faults(rng, raw) if rng.random() < 0.5 else wirefault.token_faults(rng, raw))
         return {'kind': 'wrapped', 'wrapper': wrapper, 'inner': path, 'hex': raw.hex(), 'faults': faults}
     if roll < 0.72:
         paths = corpus.class_paths()
@@ -193,7 +193,38 @@ WRAPPERS = (
      lambda p: 'ContentSecurityPolicyDirective' in p and not p.endswith(('Type', 'Variant'))),
     ('sct-list', 'cryptoparser.common.x509.SignedCertificateTimestampList', _wrap_sct_list,
      lambda p: p.endswith('.SignedCertificateTimestamp')),
+    ('header-value-in-block', 'cryptoparser.httpx.header.HttpHeaderFields', None,
+     lambda p: p in header_names()),
 )
+_HEADER_NAMES = None
+
+
+def header_names():
+    """value class path -> header field name, from the library's own header field classes."""
+    global _HEADER_NAMES  # pylint: disable=global-statement
+    if _HEADER_NAMES is None:
+        names = {}
+        try:
+            import cryptoparser.httpx.header as header_module
+            for attr_name in sorted(vars(header_module)):
+                obj = vars(header_module)[attr_name]
+                if isinstance(obj, type) and hasattr(obj, '_get_value_class') and hasattr(obj, 'get_header_field_name'):
+                    try:
+                        value_class = obj._get_value_class()  # pylint: disable=protected-access
+                        name = obj.get_header_field_name().value.normalized_name
+                    except Exception:  # abstract base  # pylint: disable=broad-except
+                        continue
+                    names[core.class_path(value_class)] = name.encode('ascii')
+        except ImportError:  # pragma: no cover
+            pass
+        _HEADER_NAMES = names
+    return _HEADER_NAMES
+
+
+def _wrap_header_value(inner, path):
+    return header_names()[path] + b': ' + inner + b'\r\n\r\n'
+
+
 _WRAP_TABLE = None
 
 
@@ -282,7 +313,7 @@ def _exec_wrapped(doc, res):
     name, container, wrap, _ = WRAPPERS[doc['wrapper']]
     cls = corpus.resolve(container) or core.get_class(container)
     inner = wire.apply_faults(bytes.fromhex(doc['hex']), doc['faults'], res)
-    raw = wrap(inner)
+    raw = wrap(inner) if wrap is not None else _wrap_header_value(inner, doc['inner'])
     outcome = oracles.probe_c02(cls, raw, res, ('parse_immutable', ), label=name)
     res.sim_events += 1
     fired = tuple(sorted(k for k in res.stats if k.startswith('fault.') and res.stats[k]))
